@@ -145,6 +145,50 @@ def cross_check_case(c):
   if Fraction(c['dest'][0], c['dest'][1]) != Fraction(c['locnum'][-1], c['nk']) or \
      sig2 * Fraction(c['dsf'][0], c['dsf'][1]) != var_t:
     raise tlc.MachineryError('emitted design-side values disagree with the analysis side: %r' % (c,))
+  mine = contract_eval(c['x'], c['y'], n, c['ntest'], c['ncool'])
+  for k in ('df', 'K', 'P', 'A', 'nk', 'D', 'resnum', 'locnum', 'V', 'varden', 'monosign', 'mono', 'strict', 'lab'):
+    if mine[k] != c[k]:
+      raise tlc.MachineryError('the integer evaluator of TBRModel.Contract disagrees with TLC on %s: %r vs %r (%r)' % (
+          k, mine[k], c[k], c))
+  for k in ('dest', 'dsf', 'sig2'):
+    if Fraction(*mine[k]) != Fraction(*c[k]):
+      raise tlc.MachineryError('the integer evaluator of TBRModel.DesignFit disagrees with TLC on %s: %r vs %r' % (
+          k, mine[k], c[k]))
+
+
+def contract_eval(x, y, npre, ntest, ncool):
+  """Contract / DesignFit of TBRModel.tla evaluated in unbounded integers: the same record TLC emits per case.
+  TLC's integers are 32-bit, so series longer than a handful of dates cannot be evaluated there; this evaluator is
+  compared field by field with every case TLC does emit (cross_check_case) before it is used for longer series."""
+  n, t = npre, ntest + ncool
+  xs, ys = x[:n], y[:n]
+  S, Q, Sy, Qy = sum(xs), sum(v * v for v in xs), sum(ys), sum(v * v for v in ys)
+  Sxy = sum(a * b for a, b in zip(xs, ys))
+  K = n * Q - S * S
+  P = n * Sxy - S * Sy
+  D = (n * Qy - Sy * Sy) * K - P * P
+  A = Sy * K - P * S
+  nk = n * K
+  res = [nk * y[i] - A - n * P * x[i] for i in range(n)]
+  cx = [sum(x[n:n + k]) for k in range(1, t + 1)]
+  cy = [sum(y[n:n + k]) for k in range(1, t + 1)]
+  e = [n * cx[k - 1] - k * S for k in range(1, t + 1)]
+  loc = [nk * cy[k - 1] - k * A - n * P * cx[k - 1] for k in range(1, t + 1)]
+  v = [k * n * K + k * k * K + e[k - 1] ** 2 for k in range(1, t + 1)]
+  sign = lambda a, b: 1 if a > b else (0 if a == b else -1)
+  mono = [sign(v[k], v[k - 1] if k else 0) for k in range(t)]
+  # design side: tbrfit(mean x, mean y) over the t analysed days
+  dx = Fraction(cx[-1], t) - Fraction(S, n)
+  dy = Fraction(cy[-1], t) - Fraction(Sy, n)
+  b = Fraction(P, K) if K else None
+  dest = t * (dy - b * dx) if K else None
+  dsf = t * t * ((1 + dx * dx / Fraction(K, n * n)) / n + Fraction(1, t)) if K else None
+  return {'shape': 0, 'npre': n, 'ntest': ntest, 'ncool': ncool, 'x': list(x), 'y': list(y),
+          'lab': [0] * n + [1] * ntest + [2] * ncool, 'df': n - 2, 'K': K, 'P': P, 'A': A, 'nk': nk, 'D': D,
+          'resnum': res, 'locnum': loc, 'V': v, 'varden': [n - 2, n, n, K, K], 'monosign': mono,
+          'mono': all(m >= 0 for m in mono), 'strict': all(m > 0 for m in mono),
+          'dest': [dest.numerator, dest.denominator] if K else None,
+          'dsf': [dsf.numerator, dsf.denominator] if K else None, 'sig2': [D, (n - 2) * nk]}
 
 
 def expected(c):
@@ -180,6 +224,33 @@ KIND_FLAGS = {
 KINDS = ['one_geo', 'split', 'split_shuffled', 'unassigned_geos', 'extra_dates', 'all_shuffled']
 PRE, TEST, COOL, NOPERIOD = 0, 1, 2, -1
 CONTROL, TREATMENT, NOGROUP = 1, 2, -1
+
+
+LONG_NPRE = [60, 122, 123, 124, 150, 200, 365, 500, 90, 130, 250, 121]
+LONG_KINDS = ['one_geo', 'split_shuffled']
+
+
+def long_cases(seed, count):
+  """Series of realistic length (pre-periods of 60..500 dates), evaluated by contract_eval."""
+  out = []
+  for j in range(count):
+    rng = random.Random(seed * 1000003 + j * 7919 + 17)
+    n = LONG_NPRE[j % len(LONG_NPRE)]
+    ntest, ncool = rng.randint(5, 28), rng.choice([0, 3, 7])
+    total = n + ntest + ncool
+    level, x = rng.randint(20, 60), []
+    for i in range(total):
+      level = max(5, min(90, level + rng.randint(-3, 3)))
+      x.append(level + (i % 7 == 0) * 4)
+    slope = rng.choice([1, 2, 3])
+    y = [slope * v + rng.randint(0, 9) + (3 if i >= n else 0) for i, v in enumerate(x)]
+    c = contract_eval(x, y, n, ntest, ncool)
+    if c['K'] <= 0 or c['D'] <= 0:
+      continue
+    c['shape'] = -(j + 1)
+    c['long'] = True
+    out.append(c)
+  return out
 
 
 def frame_rng(seed, c, kind, salt=''):
@@ -551,6 +622,8 @@ def work(job):
   out = {'idx': idx, 'viol': [], 'traces': 0, 'kinds': {}, 'uc': {True: 0, False: 0}, 'combos': set(), 'keys': []}
   fidx = 0
   for ki, kind in enumerate(KINDS):
+    if c.get('long') and kind not in LONG_KINDS:
+      continue
     for uc in (True, False):
       with_finding = (idx % 16 == 5 and ki == idx // 16 % len(KINDS) and uc)
       combos = combos_for(idx, fidx, with_finding)
@@ -599,7 +672,12 @@ def run(res):
               'non-trivial = every one (each fits the model and reads posterior and summaries)' %
               TIERS[res.tier]['sample_mod'])
   t0 = time.time()
-  results = pool_map(work, [(i, c, res.seed) for i, c in enumerate(cases)])
+  longs = long_cases(res.seed, 48 if res.tier == 'thorough' else 12)
+  res.extra['long_series_cases'] = {'count': len(longs), 'n_pre': sorted({c['npre'] for c in longs}),
+                                    'evaluator': 'contract_eval (unbounded integers), compared with TLC on all %d '
+                                                 'emitted cases' % len(cases)}
+  results = pool_map(work, [(i, c, res.seed) for i, c in enumerate(cases)] +
+                     [(len(cases) + i, c, res.seed) for i, c in enumerate(longs)])
   kinds, ucs, combos = {}, {True: 0, False: 0}, set()
   per_key = {}
   for out in results:
